@@ -279,6 +279,13 @@ func (f *file) toAbsolutePaths(paths []string) ([]string, error) {
 // insideRoot returns the paths that lie inside the root directory the file
 // was loaded under, in order.
 func (f *file) insideRoot(paths []string) []string {
+	root := f.root
+
+	resolved, err := filepath.EvalSymlinks(root)
+	if err == nil {
+		root = resolved
+	}
+
 	ret := []string{}
 
 	for _, path := range paths {
@@ -287,7 +294,15 @@ func (f *file) insideRoot(paths []string) []string {
 			continue
 		}
 
-		rel, err := filepath.Rel(f.root, abs)
+		// A directory inside the root may be a link that leaves it.
+		dir := filepath.Dir(abs)
+
+		resolved, err := filepath.EvalSymlinks(dir)
+		if err == nil {
+			dir = resolved
+		}
+
+		rel, err := filepath.Rel(root, filepath.Join(dir, filepath.Base(abs)))
 		if err != nil {
 			continue
 		}
